@@ -443,7 +443,52 @@ def reiterable_contract(loader, prop):
     return out
 
 
+def run_local(desc):
+    """The K1 / function proofs of a property are about ONE subscription of ONE application of the operator, started from the
+    state its subscribe function allocates.  That they speak for every subscription and every application is this frame
+    condition, checked for the property's own functions: handlers write only state allocated by their own subscription
+    (C04's condition) and applications neither write nor share factory-scope objects (C44's)."""
+    t0 = time.time()
+    loader = Loader()
+    prop = desc["prop"]
+    table = iterable_param_table(loader)
+    results = []
+    functions = {}
+    for rel in desc.get("files", []):
+        if not (rel.startswith("reactivex/operators/") or rel.startswith("reactivex/observable/")) or rel.endswith("__init__.py") or "/mixins/" in rel:
+            continue
+        try:
+            m = loader.load_file(rel)
+        except (OSError, SyntaxError):
+            continue
+        for st in m.tree.body:
+            if not isinstance(st, ast.FunctionDef):
+                continue
+            try:
+                fs, root = analyse_function(rel, st, loader, table)
+            except RecursionError:
+                continue
+            functions[f"{rel}::{st.name}"] = loader.sha(rel, st.name)
+            oid = f"{rel}::{st.name}/state-is-allocated-per-subscription-and-per-application"
+            if not fs:
+                results.append({"id": oid, "verdict": "proved", "backend": "frame-analysis", "model": {}, "path": [],
+                                "detail": "", "seconds": 0.0, "kind": "frame"})
+            for f in fs:
+                r = {"id": f"{oid}/{f.label}", "verdict": "refuted", "backend": "frame-analysis", "model": {},
+                     "path": [], "detail": f"{f.detail} (line {f.line})", "seconds": 0.0, "kind": "frame"}
+                wc = witness_contract(st.name)
+                if wc:
+                    r["replay_info"] = {"runner": "diffrun.py", "module": wc[0], "name": wc[1],
+                                        "mode": "resub" if f.prop == "C04" else "reuse"}
+                results.append(r)
+    return {"unit": f"state-allocation/{prop}", "kind": "K4 frame / allocation-scope conditions of the functions under contract",
+            "functions": functions, "results": results, "unsupported": None, "spec_validation": [], "bounded": [],
+            "seconds": time.time() - t0}
+
+
 def run_unit(desc):
+    if desc.get("mode") == "local":
+        return run_local(desc)
     t0 = time.time()
     loader = Loader()
     prop = desc["prop"]
